@@ -503,7 +503,8 @@ static void run_script(const std::vector<std::string> &lines) {
             }
             mark_new_vertices(w, std::min(old_nv, (int)w.mesh.n_vertices()));   // take_snap reads vertex positions: keep them defined
             dump_state(w, o);
-            if (g_oracle && !r.rejected && !r.echo.empty()) note_history(take_snap(w), split_ws(r.echo)[0]);   // records a history that leaves the contract
+            if (g_oracle && !r.rejected && !r.echo.empty() && note_history(take_snap(w), split_ws(r.echo)[0]))
+                o << "!T history left the contract (a caller-defined operation produced a state outside the properties' quantifier)\n";
         }
         std::string s = o.str();
         fwrite(s.data(), 1, s.size(), stdout);
